@@ -792,3 +792,20 @@ package otto
 //@   dyn_preserves runtime.scope, scope.outer
 //@   preserves runtime.scope, scope.outer
 //@   fresh_refs
+
+// A runtime is wired to its Otto once, by the three constructors.
+//@ stablefield[C18,C20] runtime.otto writers=New,(*Otto).clone,(*Otto).Copy
+
+// Interrupt polling (C18): with an interrupt channel installed, every evaluation of a
+// statement or an expression polls the channel before it returns - so no loop of the
+// evaluator, nested call or callback makes unbounded progress without a poll.
+//@ func (*runtime).cmplEvaluateNodeStatement
+//@   props C18
+//@   nosafety
+//@   requires rt != nil && rt.otto != nil
+//@   calls select(rt.otto.Interrupt) when rt.otto.Interrupt != nil
+//@ func (*runtime).cmplEvaluateNodeExpression
+//@   props C18
+//@   nosafety
+//@   requires rt != nil && rt.otto != nil
+//@   calls select(rt.otto.Interrupt) when rt.otto.Interrupt != nil
